@@ -389,3 +389,27 @@ def c18_guarded_file(ctx: Ctx):
                          f'`{src(parent)} == {src(keyexpr)}` (facts: {show(have)})')
     if n == 0:
         raise AnalysisError('no effect on a key-directory file found in LocalStorage (file_handle anchor lost)')
+
+
+@rule('C18.ROOT-RESOLVED', ['C18', 'C08', 'C06'])
+def root_resolved(ctx: Ctx):
+    """LocalStorage pins its directory at construction: the root field is <storage_dir>.resolve() (an absolute,
+    symlink-free path), so a later chdir cannot re-anchor the storage."""
+    c = local_storage(ctx)
+    root = root_field(ctx)
+    init = c.methods.get('__init__')
+    g = ctx.cfg(init)
+    rd = ctx.rd(init)
+    ws = [n for n in walk_local(init.node) if isinstance(n, ast.Assign) and isinstance(n.targets[0], ast.Attribute)
+          and n.targets[0].attr == root]
+    ok = False
+    if len(ws) == 1:
+        v = ws[0].value
+        ok = isinstance(v, ast.Call) and isinstance(v.func, ast.Attribute) and v.func.attr in ('resolve', 'absolute') and not v.args
+        if ok:
+            base = v.func.value
+            p0 = [a.arg for a in init.params if a.arg != init.self_name][0]
+            ok = isinstance(base, ast.Name) and base.id == p0
+    yield ctx.ob('C18.ROOT-RESOLVED', ok, init, ws[0] if ws else init.node, f'self.{root} = storage_dir.resolve()',
+                 '' if ok else f'the storage directory is not resolved to an absolute path at construction: after a change of working '
+                 'directory every later resolve() re-anchors the storage somewhere else (entries vanish, or another directory is written and deleted)')
